@@ -646,11 +646,41 @@ func (p *Program) contextOnly(fn *ssa.Function, within func(*ssa.Function) bool)
 			return false // recursive
 		}
 		if isSynthetic(c) {
-			// a wrapper (pointer-receiver form of a value method, bound-method closure): acceptable only if nothing uses it
-			if cn := p.CG.Nodes[c]; cn != nil && len(cn.In) > 0 {
-				return false
+			// a wrapper (pointer-receiver form of a value method, bound-method closure, method-expression thunk):
+			// acceptable if nothing uses it, or — for a thunk — if every use of the thunk is itself acceptable
+			cn := p.CG.Nodes[c]
+			if cn == nil || len(cn.In) == 0 {
+				continue
 			}
-			continue
+			if unwrapThunk(c) == fn {
+				okAll := true
+				for _, e2 := range cn.In {
+					c2 := e2.Caller.Func
+					if e2.Site == nil || e2.Site.Common().IsInvoke() || !within(c2) || p.SSA == nil {
+						okAll = false
+						break
+					}
+					if e2.Site.Common().StaticCallee() == c {
+						continue
+					}
+					if g := tableRoot(e2.Site.Common().Value); g == nil || !p.Globals().immut[g] {
+						okAll = false
+						break
+					}
+				}
+				if okAll {
+					continue
+				}
+			}
+			return false
+		}
+		if e.Site != nil && e.Site.Common().StaticCallee() == nil && !e.Site.Common().IsInvoke() && within(c) && p.SSA != nil {
+			// a call through a function value taken from an initialise-once package-level table: the target is resolved
+			// on each path from the table's contents (globals.go), so the call is as good as static
+			if g := tableRoot(e.Site.Common().Value); g != nil && p.Globals().immut[g] {
+				continue
+			}
+			return false
 		}
 		if e.Site == nil || e.Site.Common().StaticCallee() != fn || !within(c) {
 			return false
@@ -711,4 +741,34 @@ func (p *Program) originOfParam(v ssa.Value, depth int) ssa.Value {
 		return v
 	}
 	return p.originOfParam(site.Common().Args[idx], depth+1)
+}
+
+// tableRoot: the package-level variable a value is read from (through loads, lookups, indexing, field selection).
+func tableRoot(v ssa.Value) *ssa.Global {
+	for i := 0; i < 12 && v != nil; i++ {
+		switch x := v.(type) {
+		case *ssa.Global:
+			return x
+		case *ssa.Extract:
+			v = x.Tuple
+		case *ssa.Lookup:
+			v = x.X
+		case *ssa.Index:
+			v = x.X
+		case *ssa.IndexAddr:
+			v = x.X
+		case *ssa.Field:
+			v = x.X
+		case *ssa.FieldAddr:
+			v = x.X
+		case *ssa.UnOp:
+			if x.Op.String() != "*" {
+				return nil
+			}
+			v = x.X
+		default:
+			return nil
+		}
+	}
+	return nil
 }
